@@ -46,7 +46,11 @@ fn main() {
         "C05" => c05::run(&mut rep, &tier, seed),
         "C06" => {
             let exe = std::env::current_exe().unwrap().to_string_lossy().to_string();
-            c06::run(&mut rep, &tier, seed, &exe, "/verif/harness/work/c06");
+            // scratch directory next to the report, unique per process, removed afterwards
+            let base = std::path::Path::new(&out).parent().map(|p| p.to_string_lossy().to_string()).unwrap_or_else(|| "/verif/harness/work".into());
+            let work = format!("{}/c06-{}", base, std::process::id());
+            c06::run(&mut rep, &tier, seed, &exe, &work);
+            let _ = std::fs::remove_dir_all(&work);
         }
         "C07" => c07::run(&mut rep, &tier, seed),
         "C13" => {
